@@ -41,3 +41,53 @@ Proof. repeat split; vm_compute; reflexivity. Qed.
 Print Assumptions C06_dphidy.
 Print Assumptions C06_join.
 Print Assumptions C06_jump_location.
+
+(* ---------------------------------------------------------------------------------------------------------------
+   The quadrature itself (round 5): calcZShift as modelled in theories/Model_Quadrature.v (integrand, scipy's
+   cumulative_trapezoid, the shift to startInd, interp1d, accumulation, hand-over; the PrimFloat instance of the same
+   definitions is run bit for bit against the real calcZShift on stub regions on every run); theorems over R. *)
+From HT Require Import Model_Quadrature Proof_Quadrature.
+Local Open Scope R_scope.
+
+(* the integral starts at 0 and grows over each fine segment by the trapezoid of Bt/(R Bp) over that segment;
+   it is zero at the fine contour's startInd after the shift *)
+Theorem C06_trapezoid_increment : forall y x k, length y = length x -> (S k < length y)%nat ->
+  nth 0 (cumtrapz Rops y x) 0 = 0 /\
+  nth (S k) (cumtrapz Rops y x) 0 - nth k (cumtrapz Rops y x) 0 = (nth (S k) x 0 - nth k x 0) * (nth (S k) y 0 + nth k y 0) / 2.
+Proof. intros y x k Hl Hk. split; [reflexivity|]. exact (cz_step y x k Hl Hk). Qed.
+Theorem C06_origin_at_startInd : forall y x si, length y = length x -> (si < length y)%nat -> nth si (zshift_fine Rops y x si) 0 = 0.
+Proof. exact zshift_fine_origin. Qed.
+
+(* a field of one sign gives a monotone zShift along the surface *)
+Theorem C06_monotone_for_positive_pitch : forall y x, length y = length x -> (forall k, (k < length y)%nat -> 0 < nth k y 0) ->
+  (forall k, (S k < length x)%nat -> nth k x 0 < nth (S k) x 0) ->
+  forall k, (S k < length y)%nat -> nth k (cumtrapz Rops y x) 0 < nth (S k) (cumtrapz Rops y x) 0.
+Proof. exact cz_increasing. Qed.
+
+(* the interpolation onto the contour's own points returns the node value at a node ... *)
+Theorem C06_interpolation_at_node : forall xp fp j, incr xp -> (j < length xp)%nat -> interp Rops xp fp (nth j xp 0) = Some (nth j fp 0).
+Proof. exact interp_at_node. Qed.
+
+(* ... and altogether: where the pitch Bt/(R Bp) is uniform along the surface, zShift at every point of the contour is
+   EXACTLY the value handed over plus pitch times poloidal distance from the startInd -- for every discretisation of the
+   fine contour and every position of the contour's points between the fine points *)
+Theorem C06_uniform_pitch_exact : forall base c ys fdist si cdist,
+  length ys = length fdist -> (1 <= length ys)%nat -> incr fdist -> (si < length ys)%nat ->
+  (forall k, (k < length ys)%nat -> nth k ys 0 = c) ->
+  increasing_guard Rops cdist = true ->
+  (forall s, In s cdist -> nth 0 fdist 0 <= s <= last fdist 0) ->
+  zshift_contour Rops base ys fdist si cdist = Some (map (fun s => base + c * (s - nth si fdist 0)) cdist).
+Proof. exact zshift_uniform_pitch. Qed.
+
+(* for ANY integrands and any number of regions in the y-group: each later region starts from the value at the last
+   y-face of the region before it *)
+Theorem C06_continuous_at_joins : forall (regions : list (@seg R)) base vals,
+  (forall r, In r regions -> seg_wf r) ->
+  zshift_chain Rops base regions = Some vals ->
+  length vals = length regions /\
+  forall k, (S k < length vals)%nat -> hd 0 (nth (S k) vals []) = last (evens (nth k vals [])) 0.
+Proof. exact zshift_chain_continuous. Qed.
+
+Print Assumptions C06_trapezoid_increment.
+Print Assumptions C06_uniform_pitch_exact.
+Print Assumptions C06_continuous_at_joins.
